@@ -28,7 +28,7 @@ ASSUMPTIONS = ['whether a system registered mid-timestep first runs in that time
                'the oracle is computed from the script: a system removed before its turn does not perform its own scripted action']
 FLOORS = {'quick': {'action_steps': 2400, 'act_cleanup': 60, 'act_remove_earlier': 90, 'act_remove_later': 90, 'act_add_higher': 120,
                     'act_add_equal': 60, 'act_add_lower': 120, 'act_replace_earlier': 200, 'act_replace_later': 200, 'act_readd_self': 200,
-                    'act_readd_earlier': 200, 'act_readd_later': 200, 'blocks_multi': 2000, 'blocks_single': 2000, 'quiet_steps': 4000, 'two_actor_steps': 1000,
+                    'act_readd_earlier': 200, 'act_readd_later': 200, 'blocks_multi': 2000, 'blocks_single': 2000, 'removed_via_clean_up': 300, 'quiet_steps': 4000, 'two_actor_steps': 1000,
                     'reach:Core.SystemManager.execute_systems': 5000, 'reach:Core.System.clean_up': 60},
           'thorough': {'action_steps': 100000, 'two_actor_steps': 80000}}
 EXHAUSTIVE = {}
@@ -51,12 +51,31 @@ def fixtures():
             if act is not None:
                 w.perform(self, act, t)
 
+    import ECAgent.Collectors as collectors
+
+    class ScriptedCollector(collectors.Collector):
+        """The same scripted behaviour on a Collector (records stay empty): collectors are systems too."""
+
+        def __init__(self, id, model, world, priority=0, uid=None):
+            super().__init__(id, model, priority=priority)
+            self.world = world
+            self.uid = uid or id
+
+        def collect(self):
+            Scripted.execute(self)
+
+    Scripted.AsCollector = ScriptedCollector
     return core, Scripted
 
 
+def hash_of(text):
+    return sum(ord(c) for c in text)
+
+
 class World:
-    def __init__(self, ctx, prios):
+    def __init__(self, ctx, prios, flavour=0):
         self.ctx = ctx
+        self.flavour = flavour            # which of the systems are Collector subclasses
         self.core, self.Scripted = fixtures()
         self.model = self.core.Model()
         self.log = []          # (timestep, uid)
@@ -78,7 +97,8 @@ class World:
     def register(self, sid, prio):
         self.generation[sid] = self.generation.get(sid, -1) + 1
         uid = sid if self.generation[sid] == 0 else f'{sid}#v{self.generation[sid] + 1}'
-        o = self.Scripted(sid, self.model, self, priority=prio, uid=uid)
+        cls = self.Scripted.AsCollector if (hash_of(uid) + self.flavour) % 3 == 0 else self.Scripted
+        o = cls(sid, self.model, self, priority=prio, uid=uid)
         self.objs[uid] = o
         self.model.systems.add_system(o)
         return self._entry(uid, sid, prio)
@@ -100,7 +120,11 @@ class World:
             target = act[1]            # a system id; the currently registered object under it is removed
             cur = [r for r in self.ref if r['sid'] == target]
             if cur:
-                self.model.systems.remove_system(target)
+                if kind == 'remove' and self.flavour % 2:
+                    self.objs[cur[0]['id']].clean_up()          # a supervisor asks the system to remove itself
+                    self.ctx.count('removed_via_clean_up')
+                else:
+                    self.model.systems.remove_system(target)
                 self.ref = [r for r in self.ref if r['sid'] != target]
                 rec('removed', cur[0]['id'])
                 if kind == 'replace':   # a DIFFERENT object under the same id, registered in the same timestep
@@ -212,7 +236,7 @@ def new_prio(rel, prios, actor_prio):
 
 def case_ex(ctx, case):
     for mode in ('single', 'multi'):
-        w = World(ctx, case['prios'])
+        w = World(ctx, case['prios'], flavour=case['actor'] + (1 if mode == 'multi' else 0))
         order = w.order()
         actor = f's{case["actor"]}'
         a = case['action']
@@ -249,7 +273,7 @@ def case_rand(ctx, case):
     n = rng.randint(3, 7)
     levels = rng.sample(range(-3, 4), rng.randint(1, 3))
     prios = [rng.choice(levels) for _ in range(n)]
-    w = World(ctx, prios)
+    w = World(ctx, prios, flavour=rng.randint(0, 5))
     ta = rng.randint(0, 2)
     actors = rng.sample(range(n), rng.randint(2, min(3, n)))
     desc = []
